@@ -1,5 +1,96 @@
-/- Line-protocol driver for the C14 model (stub until the model exists). -/
-import ForML.Model.Sexp
-open ForML
+/- Line-protocol driver for the C14 model (ForML.Model.PushDown).
 
-def main : IO Unit := driverLoop (fun _ => .atom "no-model")
+  (hints strict|lenient <source>)            -> (ok (scan <table> (<col>*) (<factor>*))*) | (error <Err>)
+  (needs <source>)                           -> (ok (<col>*)*)        spec: columns each scan must offer
+  (lazy <source>)                            -> (ok (<table> <col>)*)  columns lazy._Columns extracts
+  (scoped <source>)                          -> (ok <innerOnly> <wellScoped>)
+  (exec ignore|rows|cols|both <source> <db>) -> (ok (<val>*)*)        rows of the statement over a back-end (simpleSem)
+       db  ::= ((<table> (<col>*) ((<val>*)*))*)      val ::= null | <int> | true | false
+  a line may be wrapped in (let ((x e)*) body), see ForML.Model.Dsl
+-/
+import ForML.Model.Sexp
+import ForML.Model.Dsl
+import ForML.Model.PushDown
+open ForML ForML.Dsl ForML.PushDown
+
+partial def hasAtom (a : String) : Sexp → Bool
+  | .atom s => s == a
+  | .list xs => xs.any (hasAtom a)
+
+def tableName : Source → String
+  | .table n _ => n
+  | _ => "?"
+
+def hintSexp (h : Hint) : Sexp :=
+  .list [.atom "scan", .atom (tableName h.table), .list (h.cols.map .atom), .list (h.pred.map Feature.toSexp)]
+
+def mode? : Sexp → Option Bool
+  | .atom "strict" => some false
+  | .atom "lenient" => some true
+  | _ => none
+
+def backend? : Sexp → Option Backend
+  | .atom "ignore" => some Backend.ignore
+  | .atom "rows" => some Backend.honourRows
+  | .atom "cols" => some Backend.honourCols
+  | .atom "both" => some Backend.honour
+  | _ => none
+
+def val? : Sexp → Option Val
+  | .atom "null" => some .null
+  | .atom "true" => some (.bool true)
+  | .atom "false" => some (.bool false)
+  | x => x.int?.map .int
+
+def valSexp : Val → Sexp
+  | .null => .atom "null"
+  | .int n => Sexp.ofInt n
+  | .bool b => Sexp.ofBool b
+  | .str s => .list [.atom "str", .atom s]
+
+def tableData? : Sexp → Option (String × List Row)
+  | .list [.atom n, .list cols, .list rows] => do
+    let cs ← cols.mapM Sexp.str?
+    let rs ← rows.mapM (fun r => match r with
+      | .list vs => do
+        let vals ← vs.mapM val?
+        if vals.length = cs.length then some (cs.zip vals) else none
+      | _ => none)
+    pure (n, rs)
+  | _ => none
+
+def dbOf (ts : List (String × List Row)) : Db := fun t => (ts.lookup (tableName t)).getD []
+
+def stepC14 (line : Sexp) : Sexp :=
+  match expandLet line with
+  | none => .atom "bad-op"
+  | some x =>
+    if hasAtom "window" x then .atom "bad-op" else
+    match x with
+    | .list [.atom "hints", m, s] =>
+      match mode? m, Source.ofSexp s with
+      | some len, some src =>
+        match hints len src with
+        | .ok hs => .list (.atom "ok" :: hs.map hintSexp)
+        | .error e => .list [.atom "error", .atom e.wire]
+      | _, _ => .atom "bad-op"
+    | .list [.atom "needs", s] =>
+      match Source.ofSexp s with
+      | some src => .list (.atom "ok" :: (needs [] src).map (fun cs => .list (cs.map .atom)))
+      | none => .atom "bad-op"
+    | .list [.atom "lazy", s] =>
+      match Source.ofSexp s with
+      | some src => .list (.atom "ok" :: (lazyS src).map (fun tc => .list [.atom (tableName tc.1), .atom tc.2]))
+      | none => .atom "bad-op"
+    | .list [.atom "scoped", s] =>
+      match Source.ofSexp s with
+      | some src => .list [.atom "ok", Sexp.ofBool (innerOnly src), Sexp.ofBool (wellScoped src)]
+      | none => .atom "bad-op"
+    | .list [.atom "exec", b, s, .list db] =>
+      match backend? b, Source.ofSexp s, db.mapM tableData? with
+      | some be, some src, some ts =>
+        .list (.atom "ok" :: (result true simpleSem be (dbOf ts) src).map (fun r => .list (r.map (fun kv => valSexp kv.2))))
+      | _, _, _ => .atom "bad-op"
+    | _ => .atom "bad-op"
+
+def main : IO Unit := driverLoop stepC14
